@@ -173,7 +173,8 @@ func engEvents(e *Env) {
 		if branchable {
 			dir = " @branchable"
 		}
-		x.addSchema(ctx, fmt.Sprintf(`type Ev%s { k: Int @index(unique: true) name: String v: Int }`, dir))
+		x.addSchema(ctx, fmt.Sprintf(`type Ev%s { k: Int @index(unique: true) name: String v: Int }
+type Other%s { k: Int name: String v: Int }`, dir, dir))
 		perCommit := 1
 		if branchable {
 			perCommit = 2
@@ -198,6 +199,8 @@ func engEvents(e *Env) {
 		val := map[int]int{}
 		nontrivial := false
 		explicitPartial := false
+		otherCommits := 0
+		_ = otherCommits
 		note := func(k int, v int, deleted bool) {
 			expected = append(expected, live[k])
 			if !deleted && v >= 5 {
@@ -211,6 +214,16 @@ func engEvents(e *Env) {
 				time.Sleep(15 * time.Millisecond)
 				addSub(len(expected) * perCommit)
 				desc = append(desc, "subscribe")
+			}
+			if r.Chance(12) {
+				// a committed change in ANOTHER collection: announced on the bus like any other commit, but the GraphQL
+				// subscription on Ev must not yield anything for it
+				d, errs := x.gql(ctx, fmt.Sprintf(`mutation { create_Other(input: {k: %d, name: "o", v: 9}) { _docID } }`, 1000+i))
+				desc = append(desc, fmt.Sprintf("create Other k=%d %s", 1000+i, errs))
+				if errs == "" {
+					expected = append(expected, fmt.Sprint(rowsOf(d, "create_Other")[0]["_docID"]))
+					otherCommits++
+				}
 			}
 			switch r.Intn(9) {
 			case 0, 1: // single create
